@@ -1,7 +1,7 @@
 from corr import kern_family
 from oracles import c01 as oracle
 
-GEN = ["Const"]
+GEN = ["Const", "Tol"]
 LEAN_TARGETS = ["MagpyVerif.Props.C01"]
 PROPS = ["MagpyVerif.Props.C01"]
 NOT_SHOWN = {
